@@ -125,6 +125,7 @@ fn dump<'tcx>(tcx: TyCtxt<'tcx>) -> J {
                 let mut o = J::obj();
                 o.set("path", J::Str(path_of(tcx, did)));
                 o.set("vis", J::Str(vis_s(tcx, did)));
+                o.set("exported", J::Bool(tcx.effective_visibilities(()).is_exported(id)));
                 let (f, l) = span_info(tcx, tcx.def_span(did));
                 o.set("file", J::Str(f));
                 o.set("line", J::Num(l as f64));
@@ -178,6 +179,9 @@ fn dump_adt(tcx: TyCtxt<'_>, did: DefId) -> J {
     let mut o = J::obj();
     o.set("path", J::Str(path_of(tcx, did)));
     o.set("vis", J::Str(vis_s(tcx, did)));
+    if let Some(l) = did.as_local() {
+        o.set("exported", J::Bool(tcx.effective_visibilities(()).is_exported(l)));
+    }
     o.set("kind", J::Str(format!("{:?}", adt.adt_kind())));
     let (f, l) = span_info(tcx, tcx.def_span(did));
     o.set("file", J::Str(f));
@@ -237,6 +241,11 @@ fn dump_body<'tcx>(tcx: TyCtxt<'tcx>, ldid: LocalDefId, kind: DefKind) -> J {
     o.set("path", J::Str(path_of(tcx, did)));
     o.set("kind", J::Str(format!("{:?}", kind)));
     o.set("vis", J::Str(vis_s(tcx, did)));
+    if !matches!(kind, DefKind::Closure) {
+        let ev = tcx.effective_visibilities(());
+        o.set("exported", J::Bool(ev.is_exported(ldid)));
+        o.set("reachable", J::Bool(ev.is_reachable(ldid)));
+    }
     let (f, l) = span_info(tcx, tcx.def_span(did));
     o.set("file", J::Str(f));
     o.set("line", J::Num(l as f64));
@@ -315,7 +324,7 @@ fn dump_body<'tcx>(tcx: TyCtxt<'tcx>, ldid: LocalDefId, kind: DefKind) -> J {
                 let env = TypingEnv::post_analysis(tcx, did);
                 u.set("freeze", J::Bool(ut.is_freeze(tcx, env)));
                 let mut seen = HashSet::new();
-                let (im, why) = interior_mut(tcx, ut, &mut seen, 0);
+                let (im, why) = interior_mut(tcx, env, ut, &mut seen, 0);
                 u.set("interior_mut", J::Str(im.to_string()));
                 u.set("interior_why", J::Str(why));
                 u.set("has_mut_ref", J::Bool(has_mut_ref(ut)));
@@ -373,6 +382,15 @@ fn dump_body<'tcx>(tcx: TyCtxt<'tcx>, ldid: LocalDefId, kind: DefKind) -> J {
     o
 }
 
+/// Def path of the closure a value of type `t` is (directly or behind references), or null.
+fn closure_in_ty<'tcx>(tcx: TyCtxt<'tcx>, t: Ty<'tcx>) -> J {
+    match t.kind() {
+        ty::Closure(did, _) => J::Str(path_of(tcx, *did)),
+        ty::Ref(_, inner, _) => closure_in_ty(tcx, *inner),
+        _ => J::Null,
+    }
+}
+
 fn has_mut_ref(t: Ty<'_>) -> bool {
     match t.kind() {
         ty::Ref(_, _, m) => m.is_mut(),
@@ -383,6 +401,7 @@ fn has_mut_ref(t: Ty<'_>) -> bool {
 /// Deep structural search for interior mutability: "no" | "yes" | "unknown".
 fn interior_mut<'tcx>(
     tcx: TyCtxt<'tcx>,
+    env: TypingEnv<'tcx>,
     t: Ty<'tcx>,
     seen: &mut HashSet<Ty<'tcx>>,
     depth: usize,
@@ -410,7 +429,10 @@ fn interior_mut<'tcx>(
             }
             let p = tcx.def_path_str(def.did());
             // well-known interior-mutable std types that hide the cell behind raw pointers
-            if p.contains("sync::atomic::")
+            let kr = krate_of(tcx, def.did());
+            let is_std = kr == "core" || kr == "std" || kr == "alloc";
+            if is_std
+                && (p.contains("sync::atomic::")
                 || p.ends_with("::Mutex")
                 || p.ends_with("::RwLock")
                 || p.ends_with("::Cell")
@@ -418,7 +440,7 @@ fn interior_mut<'tcx>(
                 || p.ends_with("::OnceCell")
                 || p.ends_with("::OnceLock")
                 || p.ends_with("::Rc")
-                || p.ends_with("::Arc")
+                || p.ends_with("::Arc"))
             {
                 // Arc/Rc: shared ownership; contents examined below through generic args
                 if !(p.ends_with("::Rc") || p.ends_with("::Arc")) {
@@ -428,7 +450,7 @@ fn interior_mut<'tcx>(
             for v in def.variants().iter() {
                 for f in v.fields.iter() {
                     let ft = f.ty(tcx, args);
-                    let r = interior_mut(tcx, ft, seen, depth + 1);
+                    let r = interior_mut(tcx, env, ft, seen, depth + 1);
                     join(&mut acc, r);
                     if acc.0 == "yes" {
                         return acc;
@@ -438,7 +460,7 @@ fn interior_mut<'tcx>(
             // generic args (covers raw-pointer-backed containers: Vec<T>, Box<T>, ...)
             for a in args.iter() {
                 if let Some(at) = a.as_type() {
-                    let r = interior_mut(tcx, at, seen, depth + 1);
+                    let r = interior_mut(tcx, env, at, seen, depth + 1);
                     join(&mut acc, r);
                     if acc.0 == "yes" {
                         return acc;
@@ -447,12 +469,12 @@ fn interior_mut<'tcx>(
             }
         }
         ty::Ref(_, inner, _) | ty::RawPtr(inner, _) | ty::Slice(inner) | ty::Array(inner, _) => {
-            let r = interior_mut(tcx, *inner, seen, depth + 1);
+            let r = interior_mut(tcx, env, *inner, seen, depth + 1);
             join(&mut acc, r);
         }
         ty::Tuple(ts) => {
             for x in ts.iter() {
-                let r = interior_mut(tcx, x, seen, depth + 1);
+                let r = interior_mut(tcx, env, x, seen, depth + 1);
                 join(&mut acc, r);
                 if acc.0 == "yes" {
                     return acc;
@@ -461,12 +483,27 @@ fn interior_mut<'tcx>(
         }
         ty::Closure(_, cargs) => {
             for x in cargs.as_closure().upvar_tys().iter() {
-                let r = interior_mut(tcx, x, seen, depth + 1);
+                let r = interior_mut(tcx, env, x, seen, depth + 1);
                 join(&mut acc, r);
             }
         }
         ty::FnDef(..) | ty::FnPtr(..) => {}
-        ty::Param(_) | ty::Dynamic(..) | ty::Alias(..) | ty::Foreign(_) => {
+        ty::Pat(inner, _) => {
+            let r = interior_mut(tcx, env, *inner, seen, depth + 1);
+            join(&mut acc, r);
+        }
+        ty::Alias(..) => {
+            // projections such as <Generator as RTreeObject>::Envelope: normalise, then walk
+            let un = rustc_middle::ty::Unnormalized::new_wip(t);
+            match tcx.try_normalize_erasing_regions(env, un) {
+                Ok(nt) if nt != t && !matches!(nt.kind(), ty::Alias(..)) => {
+                    let r = interior_mut(tcx, env, nt, seen, depth + 1);
+                    join(&mut acc, r);
+                }
+                _ => return ("unknown", format!("{}", t)),
+            }
+        }
+        ty::Param(_) | ty::Dynamic(..) | ty::Foreign(_) => {
             return ("unknown", format!("{}", t));
         }
         _ => return ("unknown", format!("{}", t)),
@@ -551,6 +588,14 @@ fn const_j<'tcx>(tcx: TyCtxt<'tcx>, body: &Body<'tcx>, c: &ConstOperand<'tcx>) -
     }
     if let ty::Closure(did, _) = ty.kind() {
         o.set("closure", J::Str(path_of(tcx, *did)));
+        return o;
+    }
+    if let Some(sd) = c.check_static_ptr(tcx) {
+        o.set("static", J::Str(path_of(tcx, sd)));
+        o.set("static_mut", J::Bool(tcx.is_mutable_static(sd)));
+        o.set("static_crate", J::Str(krate_of(tcx, sd)));
+        let sty = tcx.type_of(sd).instantiate_identity().skip_norm_wip();
+        o.set("static_ty", J::Str(ty_s(sty)));
         return o;
     }
     let env = TypingEnv::post_analysis(tcx, body.source.def_id());
@@ -851,7 +896,10 @@ fn term_j<'tcx>(
                     let rd = inst.def_id();
                     o.set("resolved", J::Str(path_of(tcx, rd)));
                     o.set("resolved_crate", J::Str(krate_of(tcx, rd)));
-                    o.set("resolved_kind", J::Str(format!("{:?}", inst.def).chars().take(40).collect()));
+                    o.set(
+                        "resolved_kind",
+                        J::Str(format!("{:?}", inst.def).split('(').next().unwrap_or("").to_string()),
+                    );
                     o.set("resolved_substs", substs_j(inst.args));
                     // the impl's self type, when the resolved item lives in an impl
                     if let Some(imp) = tcx.impl_of_assoc(rd) {
@@ -875,6 +923,14 @@ fn term_j<'tcx>(
                 J::Arr(
                     args.iter()
                         .map(|a| J::Str(ty_s(a.node.ty(&body.local_decls, tcx))))
+                        .collect(),
+                ),
+            );
+            o.set(
+                "arg_closures",
+                J::Arr(
+                    args.iter()
+                        .map(|a| closure_in_ty(tcx, a.node.ty(&body.local_decls, tcx)))
                         .collect(),
                 ),
             );
